@@ -31,8 +31,9 @@ def seeded_table():
         st[0] += 1; st[1] += ("MISSED" in (m.get("note") or ""))
     per_round = "; ".join(f"round {r[1:]}: {a} changes, {b} missed when first evaluated" for r, (a, b) in sorted(stats.items()))
     return (f"{n} independently seeded changes kept (each verified: demo passes on /repo, fails with the patch, baseline tests still pass); "
-            f"{c} are caught by the registered quick check now. {per_round}. Every miss led to a strengthening of the check concerned "
-            f"(column note) and is caught since.\n\n" + "\n".join(rows))
+            f"{c} are caught by the registered quick check now (search alone, saved-input corpus off). {per_round}. Every miss led to a strengthening of the check concerned "
+            f"(column note) and is caught since, except the ones marked NO: changes judged outside the stated domain (the note says why). "
+            f"Changes marked n/a (stale) no longer apply to / no longer break the current /repo because a later fix: commit touched the same lines.\n\n" + "\n".join(rows))
 
 def benign_table():
     rows = ["| benign change | property | what was changed (the property still holds) | quiet at first evaluation | note |", "|---|---|---|---|---|"]
